@@ -8,6 +8,7 @@ use crate::lib_build::*;
 use crate::rng::Rng;
 use crate::train::*;
 use neurons::network::{Layer, Network};
+use neurons::tensor::Tensor;
 
 pub struct C10;
 
@@ -83,7 +84,7 @@ impl Monitor for C10 {
         vec![("histories", tier.pick(24_000, 480_000))]
     }
     fn rule(&self) -> &'static str {
-        "case i -> coupling accumulation (i mod 4: add, subtract, multiply, mean), optimizer kind (i/4 mod 5, state sized by set_optimizer), block representation (i/20 mod 2: dense body on a flat shape / convolution+deconvolution body on a spatial shape, every third of those with deconvolution+max-pool pairs inside), loops 1..4, body of 1..3 layers with and without bias, block first / after a layer / followed by a dense layer, batch 1..8, 1..10 learn() calls of which some are exactly one optimizer step (epochs = 1, batch >= N) and some several steps. Invariant checked at every quiescent point (after creation, after installing weights, after EVERY learn() call): all unrolled repetitions of each body layer hold bit-identical weights, biases and kernels; and the `parameters:` line of Display equals the independently computed count with each shared parameter counted once. A panic inside learn() is a violation when it leaves the block partially updated (repetitions no longer identical); panics that leave the block tied are counted separately. Distinct = distinct configuration descriptors."
+        "case i -> coupling accumulation (i mod 4: add, subtract, multiply, mean), optimizer kind (i/4 mod 5, state sized by set_optimizer), block representation (i/20 mod 2: dense body on a flat shape / convolution+deconvolution body on a spatial shape, every third of those with deconvolution+max-pool pairs inside), loops 1..4, body of 1..3 layers with and without bias, block first / after a layer / followed by a dense layer, batch 1..8, 1..10 learn() calls of which some are exactly one optimizer step (epochs = 1, batch >= N) and some several steps. Invariant checked at every quiescent point (after creation, after installing weights, after EVERY learn() call): all unrolled repetitions of each body layer hold bit-identical weights, biases and kernels; and the `parameters:` line of Display equals the independently computed count with each shared parameter counted once. A panic inside learn() is a violation when it leaves the block partially updated (repetitions no longer identical); panics that leave the block tied are counted separately. Distinct = distinct configuration descriptors. Every third longer learn() call passes validation data (the training inputs with negated targets, tolerance 1..2, 4..8 epochs) so that training stops early; the repetitions must be tied after such calls as after any other."
     }
     fn assumptions(&self) -> Vec<&'static str> {
         vec!["Overwrite coupling is `unimplemented!` in the library by documentation and is counted as unsupported, not generated", "non-finite weights (diverged training, e.g. additive coupling multiplies the weights by the loop count every step) end a history: NaN != NaN would make bit comparison meaningless"]
@@ -157,11 +158,37 @@ impl Monitor for C10 {
         let n_train = rng.range(1, 8);
         let data = random_data(&mut rng, cfg.input, n_train, outputs, Obj::MSE, false);
         let (xr, tr) = (data.x_refs(), data.t_refs());
+        // validation targets: the negated training targets (fitting the training set makes the
+        // validation loss rise)
+        let vt: Vec<Tensor> = data.ts.iter().map(|t| Tensor::single(t.iter().map(|v| -*v).collect())).collect();
+        let vtr: Vec<&Tensor> = vt.iter().collect();
+        let dense_last = matches!(cfg.layers.last(), Some(LCfg::Dense { .. }));
         let calls = rng.range(1, 10);
         for call in 0..calls {
             let one_step = rng.bool();
             let (batch, epochs) = if one_step { (n_train + rng.range(0, 2), 1) } else { (rng.range(1, 8), rng.range(1, 3)) };
-            let (r, _) = in_cached_pool(2, || guard(|| net.learn(&xr, &tr, None, batch, epochs as i32, None)));
+            // every third call of the longer kind passes validation data with a small tolerance
+            // (the validation set is the training set with other targets, whose loss soon rises),
+            // so that learn() may stop early / treat the weights of its best epoch specially
+            let with_val = !one_step && call % 3 == 1 && dense_last;
+            let (epochs, tol) = if with_val { (rng.range(4, 8), rng.range(1, 2) as i32) } else { (epochs, 100) };
+            let (r, _) = in_cached_pool(2, || {
+                guard(|| {
+                    if with_val {
+                        net.learn(&xr, &tr, Some((&xr, &vtr, tol)), batch, epochs as i32, None)
+                    } else {
+                        net.learn(&xr, &tr, None, batch, epochs as i32, None)
+                    }
+                })
+            });
+            if let Ok((tl, _, _)) = &r {
+                if with_val {
+                    out.count("learn_calls_with_validation_data", 1);
+                    if tl.len() < epochs {
+                        out.count("learn_calls_that_stopped_early", 1);
+                    }
+                }
+            }
             match r {
                 Err(m) => {
                     if m.contains("Loss is NaN") {
